@@ -673,6 +673,12 @@ func (w *World) BeforeRead(path string) error {
 		ev.Err = "EACCES"
 		w.K.Complete(ev)
 		return injectedErr("open", path, syscall.EACCES)
+	case ft.Kind == "ebusy" || ft.Kind == "eagain" || ft.Kind == "eintr":
+		// what a sysfs attribute answers while the chip's bank is locked / the driver is busy
+		errno := map[string]syscall.Errno{"ebusy": syscall.EBUSY, "eagain": syscall.EAGAIN, "eintr": syscall.EINTR}[ft.Kind]
+		ev.Err = strings.ToUpper(ft.Kind)
+		w.K.Complete(ev)
+		return injectedErr("read", path, errno)
 	case ft.Kind == "missing":
 		tmp := path + ".away"
 		if err := os.Rename(path, tmp); err == nil {
@@ -779,6 +785,10 @@ func (w *World) BeforeWrite(path string, value int) error {
 			ev.Err = "EINVAL"
 			w.K.Complete(ev)
 			return injectedErr("write", path, syscall.EINVAL)
+		case "ebusy":
+			ev.Err = "EBUSY"
+			w.K.Complete(ev)
+			return injectedErr("write", path, syscall.EBUSY)
 		case "ignored":
 			old, _ := os.ReadFile(path)
 			w.restore = &pendingRestore{path: path, content: old}
